@@ -35,6 +35,7 @@ func checkC17(r *core.Run) {
 	c17RemoveFound(r, p)
 	c17KeyComplete(r, p)
 	c17Recognisers(r, p, "R-C17-sym")
+	c17OneRepresentation(r, p, "R-C17-sym")
 }
 
 // c17RemoveFound: when an output leaves the set, the entry removed from the address's list is the one that
@@ -837,4 +838,90 @@ func c17Recognisers(r *core.Run, p *core.Program, rule string) {
 		g := strings.Join(got, " ")
 		r.Check(bad == "" && g == w, rule, key, p.Pos(fn.Pos()), "accepts exactly the frame "+w, "the recogniser tests {"+g+"} "+bad+"; the frame is {"+w+"}")
 	}
+}
+
+// c17OneRepresentation: an address record keeps its outputs either in a list or in a map, and every reader
+// (counting, browsing, removing, saving to disk) looks at one of them first.  When a record that already
+// exists is given a map, its list must be cleared before the function goes on (else the saved index is the
+// frozen list); a record made on the spot gets only one of the two.
+func c17OneRepresentation(r *core.Run, p *core.Program, rule string) {
+	const tMap, tList = "client/wallet.OneAllAddrBal.unspMap", "client/wallet.OneAllAddrBal.unsp"
+	isNil := func(v ssa.Value) bool { c, ok := v.(*ssa.Const); return ok && c.Value == nil }
+	n := 0
+	for _, fn := range p.ModuleFuncs() {
+		if fn.Pkg == nil || !strings.HasSuffix(fn.Pkg.Pkg.Path(), "client/wallet") {
+			continue
+		}
+		type fst struct {
+			st   *ssa.Store
+			base ssa.Value
+		}
+		var maps, lists []fst
+		an.Instrs(fn, func(i ssa.Instruction) {
+			st, ok := i.(*ssa.Store)
+			if !ok {
+				return
+			}
+			fa, ok := st.Addr.(*ssa.FieldAddr)
+			if !ok {
+				return
+			}
+			switch f, _ := an.FieldOf(fa); f {
+			case tMap:
+				maps = append(maps, fst{st, fa.X})
+			case tList:
+				lists = append(lists, fst{st, fa.X})
+			}
+		})
+		for _, m := range maps {
+			if isNil(m.st.Val) {
+				continue
+			}
+			n++
+			key := "one-representation/" + core.FuncName(fn)
+			pos := p.Pos(m.st.Pos())
+			if _, fresh := m.base.(*ssa.Alloc); fresh {
+				bad := ""
+				for _, l := range lists {
+					if l.base == m.base && !isNil(l.st.Val) && (l.st.Block() == m.st.Block() || reachesBlock(l.st.Block(), m.st.Block()) || reachesBlock(m.st.Block(), l.st.Block())) {
+						bad = "a new record is given both a list (" + p.Pos(l.st.Pos()) + ") and a map"
+					}
+				}
+				r.Check(bad == "", rule, key, pos, "a new record gets a map or a list, not both", bad)
+				continue
+			}
+			// blocks in which the same record's list is cleared
+			cleared := map[*ssa.BasicBlock]bool{}
+			for _, l := range lists {
+				if l.base == m.base && isNil(l.st.Val) {
+					cleared[l.st.Block()] = true
+				}
+			}
+			bad := ""
+			if !cleared[m.st.Block()] {
+				seen := map[*ssa.BasicBlock]bool{}
+				stack := append([]*ssa.BasicBlock{}, m.st.Block().Succs...)
+				if len(stack) == 0 {
+					bad = "the function returns"
+				}
+				for len(stack) > 0 && bad == "" {
+					b := stack[len(stack)-1]
+					stack = stack[:len(stack)-1]
+					if seen[b] || cleared[b] {
+						continue
+					}
+					seen[b] = true
+					if _, isRet := b.Instrs[len(b.Instrs)-1].(*ssa.Return); isRet {
+						bad = "the function returns"
+					}
+					if b.Dominates(m.st.Block()) {
+						bad = "the next output is processed"
+					}
+					stack = append(stack, b.Succs...)
+				}
+			}
+			r.Check(bad == "", rule, key, pos, "the record's list is cleared when it is given a map", "an existing record is switched to a map and "+bad+" without its list being cleared: readers and the saved index still see the old list")
+		}
+	}
+	r.Check(n >= 2, rule, "one-representation/sites", "-", fmt.Sprintf("%d places where a record is given a map", n), fmt.Sprintf("%d places where a record is given a map (expected at least 2)", n))
 }
